@@ -308,6 +308,10 @@ func (x *Exec) hookAfter(st *State, fr *Frame, kind, key string, args []Val, ret
 			}
 			x.havocLoc(st, l)
 		}
+		if len(st.pendingRefs) > 0 {
+			x.growAlloc(st)
+			st.flushPendingRefs()
+		}
 		for _, c := range h.Assumes {
 			g, err := env.EvalBool(c.Expr)
 			if err != nil {
@@ -459,6 +463,10 @@ func (x *Exec) callByContract(st *State, fr *Frame, fc *FuncContract, ci calleeI
 		// not assumed (it may not have finished); without a declared frame its effects are not modelled
 		if fc.HasAssigns {
 			x.havocAssigns(st, env, fc)
+			if len(st.pendingRefs) > 0 {
+				x.growAlloc(st)
+				st.flushPendingRefs()
+			}
 		} else {
 			x.noteAbstraction("effects of spawned " + calleeShort + " on shared state not modelled (no assigns clause)")
 		}
@@ -484,6 +492,7 @@ func (x *Exec) callByContract(st *State, fr *Frame, fc *FuncContract, ci calleeI
 		x.growAlloc(st)
 		x.assumeResultAllocated(st, sig.Results(), rv)
 	}
+	st.flushPendingRefs()
 	env.old = old
 	env.st = st
 	for _, c := range fc.Ensures {
@@ -526,6 +535,7 @@ type Loc struct {
 	Ghost  string
 	GhostIdx *T // ghost map entry
 	Off, Len *T // elems(): the window that may change
+	RefLike  []bool // per array: the stored scalar is a reference (pointer, map, chan, slice base)
 }
 
 // resolveLoc interprets an assigns entry in env.
@@ -630,7 +640,7 @@ func (x *Exec) resolveLoc(env *Env, loc string) (l Loc, err error) {
 			return Loc{Arrays: names, Sorts: sorts, Ref: v.C[0]}, nil
 		}
 		names, sorts := boxArrays(et)
-		return Loc{Arrays: names, Sorts: sorts, Ref: v.C[0]}, nil
+		return Loc{Arrays: names, Sorts: sorts, Ref: v.C[0], RefLike: refLikeComps(et)}, nil
 	}
 	if strings.HasPrefix(loc, "global ") {
 		name := strings.TrimSpace(loc[7:])
@@ -687,7 +697,7 @@ func (x *Exec) resolveLoc(env *Env, loc string) (l Loc, err error) {
 				return Loc{Arrays: names, Sorts: sorts, Ref: sub}, nil
 			}
 			names, sorts := fieldArrays(st, fi)
-			return Loc{Arrays: names, Sorts: sorts, Ref: base.C[0]}, nil
+			return Loc{Arrays: names, Sorts: sorts, Ref: base.C[0], RefLike: refLikeComps(stru.Field(fi).Type())}, nil
 		}
 	}
 	return l, fmt.Errorf("assigns %q: no such field", loc)
@@ -737,6 +747,11 @@ func (x *Exec) havocLoc(st *State, l Loc) {
 			continue
 		}
 		nv := st.X.fresh("hv", vs)
+		if i < len(l.RefLike) && l.RefLike[i] && vs == SInt {
+			// a reference written by the callee / loop points to an object that exists afterwards (checked lazily against
+			// the allocation map current when the obligation is emitted: allocation only grows)
+			st.pendingRefs = append(st.pendingRefs, nv)
+		}
 		if l.Off != nil && vs.IsArray() {
 			// only the window [off, off+len) of the backing array may change
 			k := Sym("k!hv", SInt)
@@ -1011,4 +1026,33 @@ func (x *Exec) bindActiveLoopVars(env *Env, st *State, fr *Frame) {
 		x.bindLoopVars(env, st, fr, inner)
 		env.vars["inloop"] = intVal(IntLit(int64(fr.loops.ordinal[inner])))
 	}
+}
+
+// refLikeComps tells, per layout component of a Go type, whether the component is an object reference.
+func refLikeComps(t types.Type) []bool {
+	lay := Layout(t)
+	out := make([]bool, len(lay))
+	switch t.Underlying().(type) {
+	case *types.Pointer, *types.Map, *types.Chan:
+		if len(out) == 1 {
+			out[0] = true
+		}
+	case *types.Slice:
+		if len(out) > 0 {
+			out[0] = true
+		}
+	}
+	return out
+}
+
+// flushPendingRefs assumes that references produced by a havoc are nil or allocated in the current allocation map.
+func (s *State) flushPendingRefs() {
+	if len(s.pendingRefs) == 0 {
+		return
+	}
+	al := s.heapGet("Alloc", ArrSort(SInt, SBool))
+	for _, r := range s.pendingRefs {
+		s.Assume(Or(Eq(r, IntLit(0)), Select(al, r)))
+	}
+	s.pendingRefs = nil
 }
